@@ -15,6 +15,10 @@
      not atomic), then the record is written (calculateAndCheckRuleHash, :383).
    - a process starts building a target only when all of its dependencies have been built by
      this process (each process walks its own copy of the graph).
+   - the directory cache ([cache] dir) is shared by all invocations: under the target lock, after
+     needsBuilding said "build", retrieveArtifacts (:310) looks the target up under its key; on a hit
+     the outputs and the record are put in place and the command does not run; after a run the
+     outputs are stored (storeInCache, :406), still under the lock.  Filegroups never use it (:261).
 
    One build of one target by one invocation is therefore three events:
        Begin i l   take the lock of l (not enabled while another invocation holds it), decide:
@@ -314,7 +318,7 @@ Definition shared_output_class (r : list target) : option str :=
   if any_shared r then Some (s "two-targets-write-the-same-output-path") else None.
 
 (* ------------------------------------------------------------------------------------------ *)
-(* PATH-LEVEL model of the one place where two targets write the same path: two filegroups of one
+(* SharedDir: PATH-LEVEL model of the one place where two targets write the same path: two filegroups of one
    package whose sources contain the same directory d of n files, built by two processes, each followed
    by a genrule of the same process that lists the directory.  filegroupBuilder.Build (filegroup.go:65)
    for plz-out/gen/p/d, step by step:
@@ -504,10 +508,15 @@ Fixpoint alookup (k : str) (l : list (str * str)) : option str :=
 
 Definition ostr_eqb := option_eqb str_eqb.
 
-Definition check_outs (s : store ckey) (obs : list (str * list (str * option str))) : bool :=
+(* the store is keyed by label: a path that another target also writes (two filegroups with a common
+   source file) may be there although THIS target was never built - it says nothing about this label *)
+Definition path_shared (r : list target) (l o : str) : bool :=
+  existsb (fun u => negb (str_eqb (t_label u) l) && existsb (path_eqb (label_pkg l, o)) (out_paths u)) r.
+
+Definition check_outs (r : list target) (s : store ckey) (obs : list (str * list (str * option str))) : bool :=
   forallb (fun lo =>
              match sval ckey s (fst lo) with
-             | None => forallb (fun oc => ostr_eqb (snd oc) None) (snd lo)
+             | None => forallb (fun oc => ostr_eqb (snd oc) None || path_shared r (fst lo) (fst oc)) (snd lo)
              | Some v => forallb (fun oc => ostr_eqb (snd oc) (alookup (fst oc) v)) (snd lo)
                          && Nat.eqb (length v) (length (snd lo))
              end) obs.
@@ -530,7 +539,7 @@ Definition check (c : case) : bool :=
       let good (st : cstate) :=
           finished ckey st
           && list_eqb Bool.eqb (oks st) ob_ok
-          && check_outs (st_store ckey st) ob_outs
+          && check_outs r (st_store ckey st) ob_outs
           && forallb (fun ln => Nat.eqb (ran_total w (fst ln) + ran_total st (fst ln)) (snd ln)) ob_runs in
       wf_repo r && finished ckey w && good a && good b
   end.
